@@ -19,7 +19,7 @@ def lib_exceptions():
 
 
 def execute(source: bytes, choices=(), validate=1, quitonerror=1, parsed=True, labelmsm=1,
-            handler=True, faults=True, chooser=None):
+            handler=True, faults=True, chooser=None, returns=bytes):
     """
     Drive reader.read() until the source is exhausted and a genuine
     end-of-data has been reported.  -> dict(events, stream, handler_calls, chooser)
@@ -29,7 +29,12 @@ def execute(source: bytes, choices=(), validate=1, quitonerror=1, parsed=True, l
     from pyrtcm import RTCMReader  # pylint: disable=import-outside-toplevel
 
     ch = chooser if chooser is not None else Chooser(choices)
-    stream = FaultStream(source, ch, faults=faults)
+    if returns is bytes:
+        stream = FaultStream(source, ch, faults=faults)
+    else:  # a stream whose read()/readline() hand over another bytes-like type
+        from .doubles import TypedStream  # pylint: disable=import-outside-toplevel
+
+        stream = TypedStream(source, ch, returns, faults=faults)
     herrs = []
     reader = RTCMReader(
         stream, validate=validate, quitonerror=quitonerror, parsed=parsed, labelmsm=labelmsm,
